@@ -315,6 +315,13 @@ class PipelineSim(WorldBase):
                      "type": spec.get("btype", "payload")}
                 if kind == "buffet":
                     b["evict-on"] = g.choice(["root"] + order[:-1]) if len(order) > 1 else "root"
+                    if spec.get("tid") and b["evict-on"] != "root" and g.random() < 0.5:
+                        # the rank is named the way the declared tensors call it (loop_ranks says which loop rank that
+                        # is) - also a loop rank that belongs to another tensor of the kernel
+                        r0 = b["evict-on"]
+                        if r0 not in spec["tid"]:
+                            spec.setdefault("alias", {})[r0] = r0.lower() + "y"
+                        b["evict-on"] = spec["tid"].get(r0) or spec["alias"][r0]
                 bindings.append(b)
                 if spec.get("upper"):
                     ub = {"tensor": spec["tensor"], "rank": spec["upper"]["rank"], "type": "payload", "evict-on": "root"}
@@ -323,6 +330,10 @@ class PipelineSim(WorldBase):
                         bindings.insert(len(bindings) - 1, ub)
                     else:
                         bindings.append(ub)
+            if len(tens) >= 2 and g.random() < 0.25:
+                # the caller lists the traces of the whole kernel but binds only some of the tensors in this call
+                drop = tens[-1]["tensor"]
+                bindings = [b for b in bindings if b["tensor"] != drop]
             nlines = max(1, max(len({(tuple(r[len(order):2 * len(order) - 1]), r[-1] // line_elems) for r in s["rows"]})
                                     for s in tens))
             cap_lines = g.choice([0, 1, 1, 2, 2, 3, nlines // 2, nlines - 1, nlines - 1, nlines, nlines + 1, 10 ** 4]) \
@@ -585,6 +596,8 @@ class PipelineSim(WorldBase):
         spec["order"] = [ren(r) for r in spec["order"]]
         spec["tranks"] = [ren(r) for r in spec["tranks"]]
         spec["tid"] = {ren(k): v for k, v in spec["tid"].items()}
+        if "alias" in spec:
+            spec["alias"] = {ren(k): v for k, v in spec["alias"].items()}
         if "pbits" in spec:
             spec["pbits"] = {ren(k): v for k, v in spec["pbits"].items()}
         head = ",".join([r + "_pos" for r in spec["order"]] + list(spec["order"]) + ["fiber_pos"]) + "\n"
@@ -643,6 +656,7 @@ class PipelineSim(WorldBase):
                         lk = self.__dict__.setdefault("loop_keep", {})
                         if name not in lk:
                             lk[name] = {v: k for k, v in spec["tid"].items()}
+                            lk[name].update({v: k for k, v in spec.get("alias", {}).items()})
                         loop_ranks = lk[name]            # one dictionary object, kept (and edited) by the caller
                         self.probe("call_with_loop_ranks")
                     bt = spec.get("btype", "payload")
@@ -658,6 +672,8 @@ class PipelineSim(WorldBase):
                 if bkey not in bkeep:
                     bkeep[bkey] = [dict(b) for b in a["bindings"]]
                 bindings = bkeep[bkey]
+                if {k[0] for k in trace_fns} - {b["tensor"] for b in bindings}:
+                    self.probe("trace_listed_without_a_binding")
                 kw = {"loop_ranks": loop_ranks} if loop_ranks is not None else {}
                 if fn == "buffet":
                     res = Traffic.buffetTraffic(bindings, fmts, trace_fns, 10 ** 9, line, **kw)
@@ -820,6 +836,9 @@ class PipelineSim(WorldBase):
             nacc = len(comb)
             if fn == "buffet":
                 ev = b.get("evict-on", "root")
+                if spec.get("tid") and ev not in order:
+                    ev = {v: k for k, v in list(spec["tid"].items()) + list(spec.get("alias", {}).items())}.get(ev, ev)
+                    self.probe("evict_on_spelled_with_the_tensor_side_rank_name")
                 wlen = 0 if ev == "root" else order.index(ev) + 1
                 pin = shape_last if (W is not None and ev != b["rank"]) else None
                 wr, ww = buffet_ref(comb, nr, mask, epl, wlen, line, pin)
